@@ -134,8 +134,12 @@ ElemUse::getNextChildElemToExecute(
             const ElemTemplateElement*      currentElem) const
 {
     const ElemTemplateElement* nextElement = 0;
-    
-    if (m_attributeSetsNamesCount > 0)
+
+    // As in getFirstChildElemToExecute(): xsl:copy uses its attribute
+    // sets only when the current node is an element.
+    if (m_attributeSetsNamesCount > 0 &&
+        (getXSLToken() != StylesheetConstructionContext::ELEMNAME_COPY ||
+         executionContext.getCurrentNode()->getNodeType() == XalanNode::ELEMENT_NODE))
     {
         nextElement = getNextAttributeSet(executionContext);
     }
